@@ -181,10 +181,12 @@ Definition step (s : st) (o : op) : st * res :=
       let s1 := flush s true in
       (mkSt (bs s1) (cache s1) (clock s1) (nocache s1) (wthru s1) (wr_bytes (dsk s1) (blk_off s1 blk) data), ROk)
     else
-      let s1 := if wthru s
-                then mkSt (bs s) (cache s) (clock s) (nocache s) (wthru s) (wr_bytes (dsk s) (blk_off s blk) data)
-                else s in
-      (wr_cached s1 blk (N.to_nat cnt) data, ROk)
+      (* write-through: the direct write follows the cache update (repaired code): an older dirty copy of one of
+         these blocks that the update evicts is written back first and then overwritten *)
+      let s1 := wr_cached s blk (N.to_nat cnt) data in
+      (if wthru s
+       then mkSt (bs s1) (cache s1) (clock s1) (nocache s1) (wthru s1) (wr_bytes (dsk s1) (blk_off s blk) data)
+       else s1, ROk)
   | WrB blk data =>
     if nocache s then
       (mkSt (bs s) (cache s) (clock s) (nocache s) (wthru s) (wr_bytes (dsk s) (blk_off s blk) data), ROk)
